@@ -310,4 +310,47 @@ func c17ClientCerts(c *Ctx) {
 		}
 	}
 	c.Ev.Sample(map[string]any{"part": "mtls", "cell": "https/expired", "expected": "handshake refused, no DNS response"})
+	// ---- verify_client_cert without a configured ca: the system roots (here: "other-ca" alone) decide
+	b2, err := NewBed(c, "mtls-sysroots", BedOpts{Upstreams: []string{"pipe"}, Listeners: []string{"tls", "https", "quic", "tcp"}, VerifyClientCert: true, NoClientCA: true,
+		Env: map[string]string{"SSL_CERT_FILE": ca2Path, "SSL_CERT_DIR": emptyDir}})
+	if err != nil {
+		c.startFailure(err, "c17-mtls-sysroots")
+		return
+	}
+	defer b2.Stop()
+	mk2 := func(kind string) *tls.Config {
+		cfg := b2.ProxyTLS.Clone()
+		var l *pki.Leaf
+		switch kind {
+		case "none":
+			return cfg
+		case "system-ca":
+			l, _ = ca2.Leaf(pki.LeafOpt{Names: []string{"client"}, Client: true})
+		case "self-signed":
+			l, _ = ca2.Leaf(pki.LeafOpt{Names: []string{"client"}, Client: true, SelfSigned: true})
+		case "private-ca": // the CA that signed the proxy's own certificate; not a system root
+			l, _ = b2.CA.Leaf(pki.LeafOpt{Names: []string{"client"}, Client: true})
+		}
+		cfg.Certificates = []tls.Certificate{l.TLS}
+		return cfg
+	}
+	for _, listener := range []string{"tls", "https", "quic"} {
+		for _, kind := range []string{"none", "self-signed", "private-ca", "system-ca"} {
+			i++
+			name := fmt.Sprintf("ok-mtls%d.pipe.test.", i)
+			x := b2.Exchange(listener, mkQuery(uint16(i), name, dns.TypeA, dns.ClassINET, false), xOpts{TLS: mk2(kind), Timeout: 5 * time.Second})
+			c.Ev.Eval(1)
+			served := x.Err == nil && len(x.Resp) >= 12 && (x.Status == 0 || x.Status == 200)
+			cs := map[string]any{"listener": listener, "client_certificate": kind, "served": served, "err": fmt.Sprint(x.Err), "configured_ca": "none (system roots)"}
+			switch {
+			case served && kind != "system-ca":
+				c.Violation("mtls:served-without-valid-client-cert:no-ca:"+kind, fmt.Sprintf("%s listener with verify_client_cert and no ca (system roots decide): a client presenting %q received a DNS response", listener, kind), cs)
+			case !served && kind == "system-ca":
+				c.Violation("mtls:rejected-valid-client-cert:no-ca", fmt.Sprintf("%s listener with verify_client_cert and no ca: a client whose certificate chains to a system root was not served: %v", listener, x.Err), cs)
+			default:
+				c.Ev.Distinct("mtls-no-ca", listener, kind)
+				c.Ev.Count(fmt.Sprintf("mtls_no_ca_served=%v", served), 1)
+			}
+		}
+	}
 }
